@@ -140,6 +140,60 @@ def cert_shapes(tier):
     return out
 
 
+def eku_set_shapes(tier):
+    """Certificates (one CN) whose extended key usage is every non-empty subset of size <= 3 (quick: 1..2 plus the size-3 subsets
+    containing anyExtendedKeyUsage) of all standard usages + anyExtendedKeyUsage + an unknown OID, critical and not."""
+    names = list(sessdrv.EKU_OIDS)
+    out = []
+    # size 0 = no extension at all (the 'absent' shapes); an extension with an EMPTY usage list violates RFC 5280
+    # (SEQUENCE SIZE (1..MAX)), cryptography refuses to parse it and the session answers INVALID_MESSAGE - left out
+    for k in range(1, 4):
+        for sub in itertools.combinations(names, k):
+            if tier == 'quick' and k == 3 and 'any' not in sub:
+                continue
+            for critical in (True, False):
+                eku = ('set', sub, critical)
+                try:
+                    sessdrv.make_cert(['alice'], eku)
+                except Exception:
+                    continue                                   # cryptography refuses to encode this one
+                out.append(('1cn-eku{%s}%s' % (','.join(sub), '!' if critical else ''), (('alice',), eku)))
+    return out
+
+
+TRUE_SPELLINGS, FALSE_SPELLINGS = ('1', 'yes', 'true', 'on'), ('0', 'no', 'false', 'off')
+
+
+def flag_spellings():
+    """(text in the file | None = option absent, what it means).  ConfigParser.getboolean: 1/yes/true/on and
+    0/no/false/off in any letter case; the option absent = the documented default (check enabled)."""
+    out = [(None, True)]
+    for words, val in ((TRUE_SPELLINGS, True), (FALSE_SPELLINGS, False)):
+        for w in words:
+            for v in sorted({w, w.upper(), w.capitalize(), w[0].upper() + w[1:].lower() if len(w) > 1 else w, w.swapcase()}):
+                out.append((v, val))
+    return out
+
+
+def server_settings_from_file(ctx, flag_text):
+    """Write a complete server configuration file, load it with the real KmipServerConfig.load_settings and return the
+    settings dict - the session is then built from it exactly as KmipServer._setup_connection_handler does."""
+    from kmip.services.server import config as server_config
+    d = str(ctx.work)
+    for n in ('server.crt', 'server.key', 'ca.crt'):
+        open(os.path.join(d, n), 'a').close()
+    text = ('[server]\nhostname=127.0.0.1\nport=5696\ncertificate_path=%s/server.crt\nkey_path=%s/server.key\n'
+            'ca_path=%s/ca.crt\nauth_suite=TLS1.2\n' % (d, d, d))
+    if flag_text is not None:
+        text += 'enable_tls_client_auth=%s\n' % flag_text
+    path = os.path.join(d, 'server-full.conf')
+    with open(path, 'w') as f:
+        f.write(text)
+    cfg = server_config.KmipServerConfig()
+    cfg.load_settings(path)
+    return cfg.settings
+
+
 # ---------------------------------------------------------------------------------------------- the property, on the script
 def vouches(b):
     """Does this SLUGS service vouch for the user?  (both look-ups reachable and answered 200 with a JSON document)"""
@@ -159,7 +213,7 @@ def expected_identity(spec):
     if spec['cert'] is None:
         return None
     cns, eku = spec['cert'][0], spec['cert'][1]
-    if spec['tls'] and eku not in ('client', 'both'):
+    if spec['tls'] and sessdrv.eku_kind(eku) != 'client':
         return None
     if len(cns) != 1:
         return None
@@ -237,7 +291,11 @@ def run(ctx):
         'plain shapes x basic configurations in full, arrangements x 5 decisive certificates, subject encodings x 8 decisive '
         'configurations); for every second cell the '
         'auth_settings are written to a server configuration file and read back by the real KmipServerConfig.  Every cell is run; a case is '
-        'distinct by (certificate shape, flag, configuration).')
+        'distinct by (certificate shape, flag, configuration).  Plus: one-CN certificates whose extended key usage is every subset '
+        '(size 1..3; size 0 = the extension-absent shapes) of {serverAuth, clientAuth, codeSigning, emailProtection, timeStamping, OCSPSigning, anyExtendedKeyUsage, unknown OID}, '
+        'critical and not, x flag; and complete server configuration FILES with every spelling ConfigParser.getboolean accepts for '
+        'enable_tls_client_auth (and the option absent) loaded by KmipServerConfig.load_settings, session built from the loaded settings '
+        'as KmipServer does, x 5 certificate kinds.')
     ctx.regen(only=['enums'])
     ctx.prove('props/C17.v')
 
@@ -300,6 +358,38 @@ def run(ctx):
             if n % 300 == 0:
                 pool.release(px)
                 px = pool.fresh()
+        # every extended-key-usage set: only a certificate that CARRIES clientAuth passes the enabled check
+        key_p = [p for p in plugin_configs(ctx.tier) if p[0] in ('none', 'one:ok')]
+        for (clabel, cert), tls, (plabel, plugins) in itertools.product(eku_set_shapes(ctx.tier), (True, False), key_p[:1] if quick else key_p):
+            label = '%s|tls=%s|%s' % (clabel, tls, plabel)
+            spec = sessdrv.default_spec(create + get, cert=cert, tls=tls, plugins=plugins)
+            c0 = len(px.calls)
+            obs, _ = sessdrv.run_spec(px, spec)
+            oracle(ctx, label, spec, obs)
+            cases.append(sessdrv.coq_case(spec, obs, px.calls[c0:]))
+            meta.append({'config': label, 'cert': cert, 'tls': tls, 'plugins': plugins, 'entered': [bool(f['engine']) for f in obs['frames']]})
+            ctx.case_seen((clabel, tls, plabel), nontrivial=True)
+            ctx.count('eku-sets.' + sessdrv.eku_kind(cert[1]))
+        # the configuration FILE in front of the session: what the file says about enable_tls_client_auth is what the
+        # session must enforce (session built from the loaded settings exactly as KmipServer._setup_connection_handler does)
+        for (text, meaning), (clabel, cert) in itertools.product(
+                flag_spellings(), [c for c in cert_shapes(ctx.tier) if c[0] in ('absent', '1cn-absent', '1cn-server', '1cn-client', '2cn-client')]):
+            label = '%s|file:enable_tls_client_auth=%s|none' % (clabel, text)
+            try:
+                loaded = server_settings_from_file(ctx, text)
+            except Exception as e:
+                ctx.disagreement('establish', {'config': label, 'load_settings_raised': repr(e)[:200]})
+                continue
+            spec = sessdrv.default_spec(create + garbage + get, cert=cert, tls=meaning, plugins=[])
+            c0 = len(px.calls)
+            obs, _ = sessdrv.run_spec(px, spec, tls_from=lambda: loaded.get('enable_tls_client_auth'),
+                                      settings_from=lambda _s: loaded.get('auth_plugins'))
+            oracle(ctx, label, spec, obs)
+            cases.append(sessdrv.coq_case(spec, obs, px.calls[c0:]))
+            meta.append({'config': label, 'cert': cert, 'tls': meaning, 'file_text': text, 'loaded_flag': repr(loaded.get('enable_tls_client_auth')),
+                         'plugins': [], 'entered': [bool(f['engine']) for f in obs['frames']]})
+            ctx.case_seen((clabel, 'file', text), nontrivial=True)
+            ctx.count('config-file.' + ('absent' if text is None else str(meaning)))
         # the service's answers change while the connection is open: every request is authenticated afresh
         for names in (['ok', '404-user', 'ok'], ['404-user', 'ok', 'unreachable'], ['ok', 'ok-nogroups', '500-user-only'],
                       ['unreachable', 'unreachable', 'ok'], ['ok', '404-groups', '404-groups']):
